@@ -9,7 +9,7 @@ from py_gql.exc import GraphQLSyntaxError
 from py_gql.lang import parse
 from py_gql.validation import validate_ast
 from harness import gqlworld as G
-from harness.c04 import real_run, ref_run
+from harness.c04 import real_run, ref_run, REQUEST_ERROR
 from oracles import ref_lexer as RL
 
 # hand-written adversarial documents (syntactically valid; validity against the schema varies)
@@ -121,11 +121,11 @@ def check_document(text, given_vars, fail=()):
     opname = ops[-1].name.value if len(ops) > 1 and ops[-1].name else None
     variables = natural_variables(doc, given_vars)
     got_data, got_errs, msgs = real_run(schema, text, variables, G.make_data(), opname)      # any exception propagates
-    if any("Variable" in m and "invalid value" in m for m in msgs) or got_data == "<no data>":
+    if any("Variable" in m and "invalid value" in m for m in msgs) and got_data == REQUEST_ERROR:
         return True, True                     # variables rejected: allowed (only accepted assignments are quantified over)
     op = [o for o in ops if opname is None or (o.name and o.name.value == opname)][0]
     if {"query": "Query", "mutation": "Mutation", "subscription": "Subscription"}[op.operation] not in G.MODEL:
-        return (got_data in (None, "<no data>") and len(msgs) > 0), True      # operation type the schema does not define: an error result
+        return (got_data in (None, "<no data>", REQUEST_ERROR) and len(msgs) > 0), True      # operation type the schema does not define: an error result
     if "__schema" in text or "__type" in text.replace("__typename", ""):
         return isinstance(got_data, dict), True   # introspection meta-fields are C15's subject; here: no exception, a data object
     exp_data, exp_errs = ref_run(text, variables, G.make_data(), opname, fail)
@@ -135,6 +135,7 @@ def check_document(text, given_vars, fail=()):
 def _sound_edit(src: int, kind: int, pos: int, code: int) -> bool:
     """
     pre: 0 <= src < NS and 0 <= kind <= 2 and 0 <= pos <= MAXLEN and 0 <= code < len(ALPHABET)
+    pre: thorough() or kind <= 1
     pre: shard_of(src)
     post: _
     """
@@ -270,8 +271,8 @@ CONDITIONS = [
         witness={"src": 0, "fail": 0},
     ),
     Cond(
-        name="sound_edit", fn=_sound_edit, quick=200, thorough=1500, per_path=60, shards_quick=16, shards_thorough=NS,
-        bound="every single-token edit (substitute / delete / insert, %d-token alphabet of schema names, keywords, punctuation, literals) of the same %d documents that still parses (quick: budget-limited prefix of the search)" % (len(ALPHABET), NS),
+        name="sound_edit", fn=_sound_edit, quick=300, thorough=1500, per_path=60, shards_quick=16, shards_thorough=NS,
+        bound="every single-token edit (substitute / delete / insert, %d-token alphabet of schema names, keywords, punctuation, literals) of the same %d documents that still parses (quick: substitutions and deletions only)" % (len(ALPHABET), NS),
         symbolic={"src": "choice: document", "kind": "choice: edit kind", "pos": "choice: position", "code": "choice: token"},
         assumptions=["as sound_source"], expect_exhaust=False,
         witness={"src": 0, "kind": 0, "pos": 3, "code": 1},
